@@ -27,6 +27,7 @@ type c13Step struct {
 	Name   string        `json:"name,omitempty"`
 	Branch *model.Branch `json:"branch,omitempty"`
 	Doc    string        `json:"doc,omitempty"`
+	Want   string        `json:"want,omitempty"` // expected text of a "markdown" step (reference renderer)
 }
 
 type c13Tree struct {
@@ -145,7 +146,10 @@ func (m *c13Machine) run(s c13Step) string {
 	case "markdown":
 		var buf bytes.Buffer
 		if err := gtree.OutputFromMarkdown(&buf, strings.NewReader(s.Doc)); err != nil {
-			return "OutputFromMarkdown in between failed: " + err.Error()
+			return fmt.Sprintf("OutputFromMarkdown(%q) in between failed: %v (it succeeds when run alone / first)", s.Doc, err)
+		}
+		if s.Want != "" && buf.String() != s.Want {
+			return fmt.Sprintf("OutputFromMarkdown(%q) in between printed\n%swant\n%s", s.Doc, buf.String(), s.Want)
 		}
 		return ""
 	}
@@ -313,7 +317,9 @@ func TestC13Machine(t *testing.T) {
 			},
 			"markdown": func(rt *rapid.T) {
 				f := genForest(forestParams{maxNodes: 6, maxDepth: 4, names: sampled(poolTiny)}).Draw(rt, "mdforest")
-				step(c13Step{Kind: "markdown", Doc: model.Spell(f, model.Plain2)})
+				want, _ := model.Render(model.Merge(f), model.DefaultBranch)
+				// a different notation every time (unit, tabs, heading roots ...): calls must not inherit anything
+				step(c13Step{Kind: "markdown", Doc: model.Spell(f, genSpelling(f.HeadingOK()).Draw(rt, "mdspelling")), Want: want})
 			},
 			"repeat": func(rt *rapid.T) {
 				if m.last == nil {
@@ -520,7 +526,7 @@ func TestC13Concurrent(t *testing.T) {
 		nd := rapid.IntRange(0, 4).Draw(rt, "docs")
 		for i := 0; i < nd; i++ {
 			f := genForest(forestParams{maxNodes: 8, maxDepth: 4, names: sampled(poolTiny)}).Draw(rt, "mdforest")
-			c.Docs = append(c.Docs, model.Spell(f, model.Plain2))
+			c.Docs = append(c.Docs, model.Spell(f, genSpelling(f.HeadingOK()).Draw(rt, "mdspelling")))
 		}
 		c.Procs = rapid.SampledFrom([]int{1, 2, 4, 16}).Draw(rt, "procs")
 		col.eval(true, hash64(fmt.Sprint(c)), fmt.Sprintf("concurrent(%d)", g), fmt.Sprintf("gomaxprocs:%d", c.Procs))
